@@ -333,6 +333,17 @@ func runHammer(c *Case) *Obs {
 	return o
 }
 
+// After repeated time-outs in this process (an implementation that hangs) the remaining waits are cut
+// short: their outcome is "inconclusive" either way, and the run must not take hours.
+var timeoutsSeen int32
+
+func patience(long time.Duration) time.Duration {
+	if atomic.LoadInt32(&timeoutsSeen) >= 2 {
+		return long / 20
+	}
+	return long
+}
+
 func runGroup(c *Case) *Obs {
 	if len(c.Ops) > 0 && c.Ops[0][0].(string) == "hammer" {
 		return runHammer(c)
@@ -351,7 +362,10 @@ func runGroup(c *Case) *Obs {
 			skippedQuiesce++
 			return
 		}
-		ok := quiesce(h, 5*time.Second, sc.pendingTimers)
+		ok := quiesce(h, patience(5*time.Second), sc.pendingTimers)
+		if !ok {
+			atomic.AddInt32(&timeoutsSeen, 1)
+		}
 		quiet = quiet && ok
 		h.add("quiesce", ok)
 	}
@@ -418,7 +432,7 @@ func runGroup(c *Case) *Obs {
 			if en == nil {
 				continue
 			}
-			deadline := time.Now().Add(10 * time.Second)
+			deadline := time.Now().Add(patience(10 * time.Second))
 			ok := false
 			for {
 				if atomic.LoadInt64(en) >= n {
@@ -432,6 +446,7 @@ func runGroup(c *Case) *Obs {
 			}
 			if !ok {
 				awaitTimeouts++
+				atomic.AddInt32(&timeoutsSeen, 1)
 			}
 			h.add("await", r, int(n), ok)
 		case "quiesce":
@@ -452,8 +467,9 @@ func runGroup(c *Case) *Obs {
 	leaked := false
 	select {
 	case <-done:
-	case <-time.After(5 * time.Second):
+	case <-time.After(patience(5 * time.Second)):
 		leaked = true
+		atomic.AddInt32(&timeoutsSeen, 1)
 	}
 	o := &Obs{}
 	for _, e := range evs {
